@@ -94,7 +94,7 @@ var c17ShardKinds = []string{
 var c17FrameKinds = []string{
 	"trunc-boundary", "trunc-framehdr", "trunc-payload",
 	"flip-stripeIndex-lo", "flip-stripeIndex-hi", "flip-dataBytes-lo", "flip-dataBytes-hi",
-	"flip-payloadLen-lo", "flip-payloadLen-hi", "flip-hash", "flip-payload", "flip-payload-end",
+	"flip-payloadLen-lo", "flip-payloadLen-hi", "flip-hash", "flip-payload", "flip-payload-end", "burst-dataBytes+payload",
 }
 
 func c17SingleKinds(thorough bool) []string {
@@ -231,6 +231,16 @@ func c17Mutate(v *c17Variants, i int, kind string) (out []byte, remove bool, ok 
 		return flip(f+c17FrameHeaderSize, 0x01)
 	case "flip-payload-end":
 		return flip(f+c17FrameHeaderSize+pl-1, 0x80)
+	case "burst-dataBytes+payload":
+		// one damaged frame: its length field AND its payload (the payload no longer verifies, so
+		// nothing of this frame - its dataBytes field included - may be believed)
+		if f+c17FrameHeaderSize >= len(p) {
+			return nil, false, false
+		}
+		b := append([]byte{}, p...)
+		b[f+11] ^= 0x03
+		b[f+c17FrameHeaderSize] ^= 0x01
+		return b, false, true
 	}
 	panic("unknown fault kind " + kind)
 }
